@@ -449,6 +449,9 @@ class Interp:
         if depth > self.max_depth:
             raise Undecided("call depth exceeded at %s" % body.path)
         fr = Frame(body, env)
+        if depth == 0:
+            # by-value arguments of the entry call are the caller's (a rule's) own values: `fn f(mut self)` must not edit them in place
+            args = [copy_val(a) for a in args]
         for i, a in enumerate(args):
             fr.locals[i + 1] = a
         try:
